@@ -579,7 +579,6 @@ def _table(ctx) -> None:
     # all or nothing: when several columns are written one after the other, a value that a later column refuses must be refused
     # before the first column is written - the whole assignment is rehearsed on scratch copies of the target columns
     multi = [m for m in cell_stores if m.loops]
-    helper_depth = {m.depth for m in cell_stores}
     rehearsal = None
     for e in it.events:
         if e.kind == "call" and e.term[1][0] == "attr" and e.term[1][1][0] == "call" and e.term[1][1][1] == ("name", "Table") \
@@ -590,10 +589,12 @@ def _table(ctx) -> None:
                 evs = [x for x in it.events if x.kind == "elem" and x.term == recv_cols]
                 copies = bool(evs) and all(x.value[0] == "call" and x.value[1][0] == "attr" and x.value[1][2] == "copy" and x.value[1][1][0] == "sub"
                                            and x.value[1][1][1] in cols for x in evs)
-            real = [x for x in it.events if x.kind == "inline" and x.term[0] == "call" and x.term[1][0] == "name"
+            real = [x for x in it.events if x.kind == "inline" and x.depth == 0 and x.term[0] == "call" and x.term[1][0] == "name"
                     and x.term[1][1].endswith("." + e.term[1][2])]
             same_args = bool(real) and all(tuple(x.term[2][2:]) == tuple(e.term[2][1:]) for x in real)
-            if copies and same_args and helper_depth == {1}:
+            # every store to the table happens inside that helper (after the rehearsal, before the helper's inline event closes)
+            inside = bool(real) and all(m.depth >= 1 and e.seq < m.seq < max(x.seq for x in real) for m in cell_stores)
+            if copies and same_args and inside:
                 rehearsal = e
     ctx.ob("f.table-delegation", f, "all-or-nothing", not multi or rehearsal is not None,
            "several target columns: the assignment is rehearsed on copies of the target columns (same row spec, same value) before the "
@@ -609,12 +610,14 @@ def _table(ctx) -> None:
                    "columns to b (the value is not snapshotted with .copy() before the first write)")
     # (when the stores live in a private helper evaluated in line, it is the helper that must not run off its end)
     falls = it.falls_through
-    if {m.depth for m in cell_stores} == {1}:
-        inl = [x for x in it.events if x.kind == "inline" and x.term[0] == "call" and x.term[1][0] == "name"]
-        hs = {x.term[1][1] for x in inl if x.term[1][1] in prog.functions}
-        if len(hs) == 1:
+    if min(m.depth for m in cell_stores) >= 1:
+        # the helper evaluated in line directly from __setitem__ that contains the stores: its inline event closes after the last store
+        last = max(m.seq for m in cell_stores)
+        inl = sorted((x for x in it.events if x.kind == "inline" and x.depth == 0 and x.term[0] == "call" and x.term[1][0] == "name"
+                      and x.seq > last and x.term[1][1] in prog.functions), key=lambda x: x.seq)
+        if inl:
             from ..symx import Interp as _SI2
-            falls = _SI2(prog, prog.functions[next(iter(hs))]).falls_through
+            falls = _SI2(prog, prog.functions[inl[0].term[1][1]]).falls_through
     ctx.ob("f.table-delegation", f, "final-raise", bool(fin) and not falls,
            "unsupported value types raise SerifTypeError", f.node, message="Table.__setitem__ does not end by raising for unsupported values")
 
